@@ -1,7 +1,7 @@
 (* C04 — the auto-calculation wrappers around the simplex: sign and bound of the period, error rule, exact root for a
    mismatch of the collinear form, conditional residual bound, range of the auto angle. *)
 From Coq Require Import Reals Lra Bool List.
-From SpdVerif Require Import Base.Rx Base.Vec3 Gen.Idler Gen.Poling Model.Idler Model.NM1d Model.Poling Proofs.C03_base Proofs.C04_nm.
+From SpdVerif Require Import Base.Rx Base.Vec3 Gen.Idler Gen.AutoCalc Model.Idler Model.NM1d Model.AutoCalc Proofs.C03_base Proofs.C04_nm.
 Local Open Scope R_scope.
 
 (* ---------------------------------------------------------------- the order on real costs *)
